@@ -316,3 +316,39 @@ def geneOK (c : Ctx) : Loc → Bool
   | .compound _ => false
 
 end ASV.Packing.Spec
+
+/-! ### reading the written JSON back -/
+namespace ASV.Packing.Spec
+open ASV ASV.Packing
+
+/-- the value stored under a key -/
+def jLookup (k : String) : List (String × JVal) → Option JVal
+  | [] => none
+  | (k1, v) :: t => if k = k1 then some v else jLookup k t
+def jInt (j : List (String × JVal)) (k : String) : Option Int :=
+  match jLookup k j with
+  | some (.int i) => some i
+  | _ => none
+def jStr (j : List (String × JVal)) (k : String) : Option String :=
+  match jLookup k j with
+  | some (.str s) => some s
+  | _ => none
+def kindOfName (s : String) : Option Kind :=
+  if s == "protocluster" then some .proto else if s == "candidatecluster" then some .cand
+  else if s == "subregion" then some .sub else none
+
+/-- how a consumer (the drawing code, the harness) reads one area: `start`, `end`, `kind` and
+    `height` must be there; a missing neighbouring coordinate is the core's, a missing string is
+    empty, a missing group is 0 -/
+def readArea (j : List (String × JVal)) : Option Area := do
+  let start ← jInt j "start"
+  let stop ← jInt j "end"
+  let kind ← (jStr j "kind").bind kindOfName
+  let height ← jInt j "height"
+  pure { start := start, «end» := stop, kind := kind, height := height,
+         nstart := (jInt j "neighbouring_start").getD start, nend := (jInt j "neighbouring_end").getD stop,
+         product := (jStr j "product").getD "", group := (jInt j "group").getD 0,
+         «prefix» := (jStr j "prefix").getD "", category := (jStr j "category").getD "",
+         tool := (jStr j "tool").getD "" }
+
+end ASV.Packing.Spec
